@@ -647,3 +647,17 @@ val m11_step : m11 -> event -> m11 option
 val m11_run : m11 -> event list -> m11 option
 
 val chk_C11 : event list -> bool
+
+type m04 = { lcm : m03; wh0 : aid map0; wop : aid map0; wend : bool map0 }
+
+val m04_init : m04
+
+val lc_next : m03 -> event -> m03
+
+val graceful : m03 -> aid -> endk -> bool
+
+val m04_step : m04 -> event -> m04 option
+
+val m04_run : m04 -> event list -> m04 option
+
+val chk_C04 : event list -> bool
